@@ -17,7 +17,16 @@ Leg D  storm (truly concurrent; no model comparison): N free-running producer th
        clauses that hold on EVERY schedule (so the verdict is one-sided and sound whatever the OS scheduler does): written
        lines distinct and offered, per-producer order, exact accounting #write_all calls + dropped_lines() == #offered (lossy)
        / everything written, counter 0 (non-lossy).  Samples schedules the command-by-command driver cannot produce (several
-       writes in flight at once, e.g. producers racing for the slot the worker has just freed)."""
+       writes in flight at once, e.g. producers racing for the slot the worker has just freed).
+Leg E  bytes (below the model's abstraction "a failing write_all writes nothing, a successful one everything"): an underlying
+       writer that implements only `write` (std's default write_all on top) and answers from a byte-level script: short
+       writes, WouldBlock, Interrupted, other errors, Ok(0).  Oracle on the real `write` calls: every buffer presented is the
+       not-yet-accepted remainder of the current line or a whole next line, the bytes accepted for a line are disjoint and
+       form a prefix of it (nothing reaches the writer twice), a line none of whose calls failed is accepted whole, lines in
+       acceptance order, final flush and release.
+       Also (guard timeouts): a drop(guard) that reports the rendezvous timeout must have lasted at least the timeout the
+       source declares (measured around the drop call: an upper bound of the guard's wait, so load can only hide, never
+       fake, a violation)."""
 import glob
 import hashlib
 import json
@@ -309,9 +318,15 @@ def compare(m, o, ncmds):
 # ------------------------------------------------------------------------------------------------------------------
 # oracle: the property on the implementation's own observations
 
-def oracle(case, cmds, o):
+def oracle(case, cmds, o, timeouts=None):
     """returns [(what, finding-or-None)]"""
     v = []
+    # the guard's own timeouts: drop_ms is measured around drop(guard), an upper bound of how long the guard waited
+    if timeouts and o.get("gres") in (3, 4):
+        need = timeouts[0] if o["gres"] == 3 else timeouts[1]
+        if o.get("drop_ms", need) < need:
+            v.append(("drop(guard) reported the %s timeout (%s) after only %d ms, less than the %d ms the source declares for it: the guard gave up "
+                      "on a worker that would have been served in time" % ("send" if o["gres"] == 3 else "rendezvous", o["stderr"].strip()[:80], o["drop_ms"], need), None))
     lossy, cap = case["lossy"], case["cap"]
     by_hex = {h: int(k) for k, h in case["lines"].items()}
     log, hist, snaps = o["log"], o["hist"], o["snaps"]
@@ -528,7 +543,7 @@ def check_cases(ctx, rep, cases, variant, binp, timeouts):
         if o.get("problems"):
             rep.count("harness-problem")
         # oracle
-        for what, fid in oracle(c, cmds, o):
+        for what, fid in oracle(c, cmds, o, timeouts):
             rep.violation(what, {"case": replay_case, "observed": {"log": [e[:3] for e in o["log"]], "hist": o["hist"], "dropped": o["dropped"],
                                                                      "guard_drop": o["gres"], "stderr": o["stderr"][:200]}}, finding=fid)
         # correspondence
@@ -677,6 +692,118 @@ def check_storms(ctx, rep, binp, storms, attempts=1):
     ctx.log("storm: %d rounds (%.1fs)" % (len(storms), time.time() - t))
 
 
+# ------------------------------------------------------------------------------------------------------------------
+# leg E: byte-level script under std's write_all
+
+def gen_bytes(ctx):
+    rng = ctx.rng
+    n = 30 if not ctx.thorough() else 200
+    out = []
+    body = b"abcdefghijklmnopqrstuvwxyz0123456789 =:"
+    for _ in range(n):
+        nl = rng.randint(1, 12)
+        lines = []
+        for j in range(nl):
+            b = bytes([65 + j]) + bytes(rng.choice(body) for _ in range(rng.choice([0, 1, 2, 5, 9, 20, 40]))) + (b"\n" if rng.random() < 0.8 else b"")
+            lines.append(b)
+        script = []
+        for b in lines:
+            # as the unmodified worker would consume it: short writes / Interrupted, then all the rest or an error
+            left = len(b)
+            while True:
+                r = rng.random()
+                if r < 0.35 and left > 1:
+                    k = rng.randint(1, left - 1)
+                    script.append(["a", k])
+                    left -= k
+                elif r < 0.45:
+                    script.append(["int", 0])
+                elif r < 0.75:
+                    script.append(["a", 1 << 30])
+                    break
+                else:
+                    script.append([rng.choice(["wb", "wb", "err", "zero"]), 0])
+                    break
+        out.append({"mode": "bytes", "lossy": rng.random() < 0.5, "lines": [b.hex() for b in lines], "script": script, "bound_ms": 20000})
+    return out
+
+
+def bytes_oracle(c, o):
+    v = []
+    L = [bytes.fromhex(h) for h in c["lines"]]
+    if o["problems"]:
+        return ["byte-level run did not come to rest: %s" % "; ".join(o["problems"])[:200]]
+    if any(r != 1 for r in o["rets"]) or o["dropped"]:
+        v.append("a write into a queue with room for every line did not return Ok(len) (returns %s, dropped_lines() %d)" % (o["rets"], o["dropped"]))
+    ranges = {j: [] for j in range(len(L))}
+    errored = set()
+    cur = None
+    first_seen = []
+    for idx, (bh, resp, n, _fl) in enumerate(o["calls"]):
+        B = bytes.fromhex(bh)
+        if B and 65 <= B[0] < 65 + len(L):
+            j, off = B[0] - 65, 0
+            if B != L[j]:
+                v.append("write call #%d presents %r: it starts line %d but is not that line" % (idx, B[:30], j))
+                break
+        else:
+            j = cur
+            if j is None or len(B) > len(L[j]) or B != L[j][len(L[j]) - len(B):]:
+                v.append("write call #%d presents %r, which is neither a whole accepted line nor the remainder of the line being written" % (idx, B[:30]))
+                break
+            off = len(L[j]) - len(B)
+        if j not in first_seen:
+            if first_seen and j < max(first_seen):
+                v.append("line %d reaches the underlying writer after line %d: order broken" % (j, max(first_seen)))
+            first_seen.append(j)
+        if resp in ("wb", "err", "zero"):
+            errored.add(j)
+        if n > 0:
+            have = max((e for _, e in ranges[j]), default=0)
+            if off < have:
+                v.append("bytes [%d,%d) of line %d (%r) were accepted by the underlying writer twice: the line was presented again from byte %d "
+                         "after %d of its bytes had already been taken (write call #%d)" % (off, min(have, off + n), j, L[j][:20], off, have, idx))
+                break
+            if off > have:
+                v.append("line %d: bytes [%d,%d) never reached the writer but byte %d onwards did (write call #%d)" % (j, have, off, off, idx))
+                break
+            ranges[j].append((off, off + n))
+        cur = j
+    if not v:
+        for j in range(len(L)):
+            have = max((e for _, e in ranges[j]), default=0)
+            if j not in first_seen:
+                v.append("accepted line %d never reached the underlying writer" % j)
+            elif j not in errored and have != len(L[j]):
+                v.append("line %d: no write call failed, yet only %d of its %d bytes were accepted (not whole)" % (j, have, len(L[j])))
+        if not o["worker_exited"] or not o["writer_dropped"] or o["flushes"] < 1:
+            v.append("after the guard drop: worker exited %s, writer released %s, flushes %d" % (o["worker_exited"], o["writer_dropped"], o["flushes"]))
+    return v
+
+
+def check_bytes(ctx, rep, binp, cases):
+    t = time.time()
+
+    def one(c):
+        return run_storm_one(binp, c)
+
+    with ThreadPoolExecutor(max_workers=max(2, min(8, vlib.NCPU - 2))) as ex:
+        outs = list(ex.map(one, cases))
+    for c, (o, err) in zip(cases, outs):
+        rep.evaluations += 1
+        rep.count("bytes:cases")
+        if o is None:
+            rep.tie("run:h_nonblocking-bytes", False, str(err), {"case": {"bytes": c}})
+            continue
+        for call in o["calls"]:
+            rep.count("bytes:write-" + ("short" if call[1] == "a" and call[2] < len(call[0]) // 2 else {"a": "full"}.get(call[1], call[1])))
+        if any(call[1] != "a" or call[2] < len(call[0]) // 2 for call in o["calls"]):
+            rep.nontrivial.add("bytes:" + hashlib.sha1(json.dumps(c, sort_keys=True).encode()).hexdigest()[:12])
+        for what in bytes_oracle(c, o):
+            rep.violation(what, {"case": {"bytes": c}, "observed": {"write_calls": [[bytes.fromhex(x[0]).decode("latin1"), x[1], x[2]] for x in o["calls"]][:60]}})
+    ctx.log("bytes: %d cases (%.1fs)" % (len(cases), time.time() - t))
+
+
 def setup_report(ctx):
     rep = Report(ctx)
     rep.rule = ("seeded command scripts (producer write / close, worker gate release, guard drop, timeout wait, gates open / closed) over "
@@ -734,6 +861,7 @@ def run(ctx):
             rep.tie("corpus", False, "%s: %s" % (c["tag"], c["broken"]))
     check_cases(ctx, rep, cases, variant, binp, timeouts)
     check_storms(ctx, rep, binp, gen_storms(ctx))
+    check_bytes(ctx, rep, binp, gen_bytes(ctx))
     if ctx.thorough():
         ok, rpaths, log = cargo_build(ctx, "nonblocking", ["h_nonblocking"], release=True)
         if not ok:
@@ -759,6 +887,10 @@ def replay(ctx, payload):
     if front is None:
         return rep
     variant, timeouts, binp = front
+    if "bytes" in case:
+        check_bytes(ctx, rep, binp, [case["bytes"]])
+        rep.nontrivial.add("replay")
+        return rep
     if "storm" in case:
         # the failing schedule is the OS scheduler's: re-run the same round a few times (stops at the first violation)
         check_storms(ctx, rep, binp, [case["storm"]], attempts=8)
